@@ -502,6 +502,18 @@ func (u *Unit) specCall(st *State, e *SExpr, env *SpecEnv, q *bool) *Val {
 		case kSlice, kArray:
 			return intVal(x.Len)
 		}
+		if mt, ok := types.Unalias(x.T).Underlying().(*types.Map); ok {
+			// len of a builtin map: the same uninterpreted cardinality the executable len uses
+			ks := sortOf(mt.Key())
+			c := u.d.fun("maplen!"+ks, []string{arrSort(ks, SBool)}, SInt)
+			dom := u.mapDom(st, x.T, x.S)
+			if !strings.Contains(dom, "!q") {
+				// definitional facts of the cardinality for this (ground) map: non-negative, zero iff empty
+				u.d.axiom(app(">=", app(c, dom), "0"))
+				u.d.axiom(fmt.Sprintf("(= (= %s 0) (forall ((k %s)) (not (select %s k))))", app(c, dom), ks, dom))
+			}
+			return intVal(app(c, dom))
+		}
 		u.eng.specError("%s: len of %s", env.what, types.TypeString(x.T, nil))
 		return intVal("0")
 	case "isnil":
